@@ -6,6 +6,7 @@ import (
 	"math/big"
 	"math/bits"
 	"runtime"
+	"strconv"
 	"strings"
 	"sync"
 
@@ -126,6 +127,11 @@ func c05Plan(tier string) []c05Test {
 		}
 		if r%8 == 3 {
 			t = append(t, c05Test{"fallback", 1 << 62, r})
+		}
+		if r%4 == 3 {
+			for _, n := range []int64{8, 32, 6, 128, 1024, 1 << 40, 100} {
+				t = append(t, c05Test{"pool", n, r})
+			}
 		}
 		for _, n := range c05Pair {
 			t = append(t, c05Test{"pair1", n, r}, c05Test{"pair2", n, r})
@@ -289,6 +295,71 @@ func c05Stat(t c05Test, draws int, seed uint64) (float64, string) {
 		}
 		_, p := chi2p(obs, exp)
 		return p, ""
+	case "pool":
+		// every die of a pool XdN is a fair die, whatever its position in the pool: the dice
+		// listed in the process text are tallied per position class (first, middle, last third
+		// and the very last die)
+		vc := Cfg{Seed: seed | 1}
+		vm := vc.NewVM()
+		pr := fw.NewRand(seed ^ 0x9001)
+		cells := n
+		if n > 128 {
+			cells = 32
+		}
+		obs := make([][]float64, 4)
+		for i := range obs {
+			obs[i] = make([]float64, cells)
+		}
+		cnt := make([]float64, 4)
+		rounds := draws / 40
+		for i := 0; i < rounds; i++ {
+			x := []int{2, 3, 10, 13, 22, 23, 30, 64}[pr.Intn(8)]
+			if err := vm.Run(fmt.Sprintf("%dd%d", x, n)); err != nil {
+				return 0, "run failed: " + err.Error()
+			}
+			if len(vm.DetailSpans) == 0 {
+				return 0, "no detail span"
+			}
+			parts := strings.Split(vm.DetailSpans[0].Text, "+")
+			if len(parts) != x {
+				continue // elided detail
+			}
+			for pos, ps := range parts {
+				v, err := strconv.ParseInt(ps, 10, 64)
+				if err != nil || v < 1 || v > n {
+					return 0, fmt.Sprintf("die #%d of %dd%d shows %q", pos+1, x, n, ps)
+				}
+				cls := pos * 3 / x
+				var cell int64
+				if n > 128 {
+					hi, lo := mul64(uint64(v-1), uint64(cells))
+					cell = int64(div128(hi, lo, uint64(n)))
+				} else {
+					cell = v - 1
+				}
+				obs[cls][cell]++
+				cnt[cls]++
+				if pos == x-1 {
+					obs[3][cell]++
+					cnt[3]++
+				}
+			}
+		}
+		pmin := 1.0
+		for cls := range obs {
+			exp := make([]float64, cells)
+			for i := range exp {
+				exp[i] = cnt[cls] / float64(cells)
+			}
+			if cnt[cls] < 100 {
+				continue
+			}
+			if _, p := chi2p(obs[cls], exp); p < pmin {
+				pmin = p
+			}
+		}
+		// four tests: Bonferroni
+		return math.Min(1, pmin*4), ""
 	case "pair1", "pair2":
 		lag := 1
 		if t.kind == "pair2" {
@@ -343,7 +414,7 @@ func div128(hi, lo, d uint64) uint64 {
 
 func c05Draws(tier, kind string) int {
 	switch kind {
-	case "vmpair", "vmseq":
+	case "vmpair", "vmseq", "pool":
 		if tier == "thorough" {
 			return 400000
 		}
@@ -424,6 +495,10 @@ func c05Case(w *fw.W, idx int, r *fw.Rand) {
 					var vm *ds.Context
 					if g%2 == 1 {
 						vm = Cfg{}.NewVM()
+						if g%4 == 1 {
+							// a host that records the seed of every evaluation for replay
+							_, _ = vm.GetCurSeed()
+						}
 					}
 					<-start
 					for k := 0; k < K; k++ {
@@ -450,6 +525,20 @@ func c05Case(w *fw.W, idx int, r *fw.Rand) {
 					}
 					seen[v] = g
 				}
+			}
+		}
+		// the same host, one request after the other: new context, record the seed, roll
+		for k := 0; k < 200 && dup == ""; k++ {
+			vm := Cfg{}.NewVM()
+			if k%2 == 0 {
+				_, _ = vm.GetCurSeed()
+			}
+			if err := vm.Run(fmt.Sprintf("d%d", t.n)); err == nil {
+				v, _ := vm.Ret.ReadInt()
+				if og, ok := seen[int64(v)]; ok {
+					dup = fmt.Sprintf("face %d of a 2^62-sided die came up twice (earlier goroutine %d, now sequential request %d): unseeded contexts do not draw successively from the package generator", v, og, k)
+				}
+				seen[int64(v)] = -k
 			}
 		}
 		if dup != "" {
